@@ -34,6 +34,17 @@ Monitors (P = postcondition on the real function, W = workload relation)
                           (lambda * M) @ disk and Fubini-Study disks about
                           lambda * (homogeneous centre), |lambda| = 1e-12 ..
                           1e12, equal those of the unscaled representatives
+  large-collections    W  contains / intersects on collections of 255 .. 2050
+                          disks (sizes around 256 / 512 / 1024 / 2048, where
+                          blocked code paths switch), pairwise N x M, M x N and
+                          elementwise, EVERY entry against the vectorised
+                          set-theoretic oracle
+  fs_ctr_to_aff_ctr / aff_ctr_to_fs_ctr   P  (utils/cp1.py, anchored file) ==
+                          closed-form affine centre of a Fubini-Study ball /
+                          Fubini-Study centre of an affine disk
+  fs-affine-helpers    W  the helpers agree with CP1Disk(w0, rho, 'fs')
+                          .circle_parameters() / .fs_center() and invert each
+                          other, bounded balls and balls containing infinity
 """
 import traceback
 
@@ -58,6 +69,9 @@ RULE = ("point cases = (coordinate system in {projective, cx_affine, real_affine
         "{tiny, huge, moderate} x {positive, negative, complex}, |lambda| = 1e-12..1e12, "
         "object in {point, raw disk data per row / per disk, Moebius matrix, "
         "Fubini-Study centre as array / CP1Point}, relation configuration); "
+        "large cases = (N, M) with N or M in 255..2050 around the powers of two, "
+        "1-D / 2-D composite, homogeneous / mixed bounded flags; helper cases = "
+        "(scalar / array, |w0| over 4 decades, ball bounded / containing infinity); "
         "non-trivial = in-domain by the independent predicate (near-tangent pairs "
         "are counted out of domain); distinct = distinct signatures of those tuples")
 ASSUMPTIONS = [
@@ -71,6 +85,12 @@ ASSUMPTIONS = [
     "coordinates are exempt (not determined to that accuracy by their input)",
     "homogeneous representatives and matrices are rescaled by |lambda| in "
     "[1e-12, 1e12] only (no claim about underflow / overflow ranges)",
+    "utils.cp1.fs_ctr_to_aff_ctr / aff_ctr_to_fs_ctr (public helpers of an anchored "
+    "file, not called by the library) are read as: affine centre of the boundary "
+    "circle of the Fubini-Study ball (w0, rho), resp. modulus of the Fubini-Study "
+    "centre of the bounded disk |w - c| < r; judged for 0 < rho < pi/2 with "
+    "|arctan|w0| + rho - pi/2| >= 1e-3 (circle not through infinity), tolerance "
+    "1e-10 / margin; w0 = 0 exactly is not driven (finding C20-fs-helper-origin)",
     "a disk is in-domain when its three boundary points are finite, pairwise "
     "distinct and not collinear (|sin| >= 1e-3) and its interior point is at "
     "relative distance >= 1e-6 from the circle",
@@ -94,7 +114,9 @@ ANCHORS = [(_CP, q) for q in (
     ("geometry_tools/utils/core.py", "circle_through"),
     ("geometry_tools/utils/core.py", "r_to_c"),
     ("geometry_tools/utils/core.py", "c_to_r"),
-    ("geometry_tools/projective.py", "affine_coords")]
+    ("geometry_tools/projective.py", "affine_coords"),
+    ("geometry_tools/utils/cp1.py", "fs_ctr_to_aff_ctr"),
+    ("geometry_tools/utils/cp1.py", "aff_ctr_to_fs_ctr")]
 REQUIRED = [
     (_CP, "CP1Disk._compute_proj_data", "normed_ctr[utils.normsq(center_coords) == 0] = np.array([1.0, 0.0])"),
     (_CP, "CP1Disk._compute_proj_data", "q, r = np.linalg.qr(np.expand_dims(center_coords, axis=-1),"),
@@ -137,7 +159,8 @@ _state = {"run": None, "CP1Disk": None}
 
 HOOKED = {"__init__", "circle_parameters", "center_inside", "fs_center", "fs_diameter",
           "complement", "inversion", "contains", "intersects", "apply",
-          "projective_to_spherical", "spherical_to_projective"}
+          "projective_to_spherical", "spherical_to_projective",
+          "fs_ctr_to_aff_ctr", "aff_ctr_to_fs_ctr"}
 
 
 def exc_key(name, exc, extra=None):
@@ -865,6 +888,109 @@ def hook_apply(call):
                      dict(c, image=describe(D)))
 
 
+# ---------------------------------------------------------------------------
+# utils/cp1.py: Fubini-Study <-> affine helpers (seeded change C20-r6-2)
+
+HELPER_MARGIN = 1e-3
+# the centre w0 = 0 makes fs_ctr_to_aff_ctr return NaN (0/0 for the direction)
+# on the unchanged tree: finding C20-fs-helper-origin, reported with a repair;
+# the class is driven only once that is fixed in /repo.
+HELPERS_DRIVE_ORIGIN = False
+
+
+def _helper_args(call, names):
+    b = call.bound()
+    a = _cnum(b.get(names[0]))
+    r = _cnum(b.get(names[1]))
+    if a is None or r is None or np.iscomplexobj(r):
+        return None
+    try:
+        a, r = np.broadcast_arrays(a.astype(complex), r.astype(float))
+    except Exception:
+        return None
+    return a, r
+
+
+def hook_fs_ctr_to_aff_ctr(call):
+    """Every caller of the helper gets the affine centre of the circle bounding
+    the Fubini-Study ball -- also when the ball contains infinity (far
+    intersection with the ray on the other side of the origin: negative
+    denominator in the closed form).  C20-r6-2 clamped the far angle to pi/2."""
+    run = _state["run"]
+    mon = run.monitor("fs_ctr_to_aff_ctr")
+    got = _helper_args(call, ("fs_center", "fs_radius"))
+    if got is None:
+        return mon.skip("centre / radius not numeric or not broadcastable")
+    w0, rho = got
+    if not (np.all(np.isfinite(w0)) and np.all(np.isfinite(rho))):
+        return mon.skip("non-finite input")
+    want, mg = cp1.fs_ball_affine_centre(w0, rho)
+    dom = (rho > 0) & (rho < np.pi / 2) & (mg >= HELPER_MARGIN)
+    if not np.any(dom):
+        return mon.skip("radius outside (0, pi/2) / boundary circle through infinity")
+    case = {"function": "utils.cp1.fs_ctr_to_aff_ctr", "fs_center": w0 if w0.size <= 100 else w0.shape,
+            "fs_radius": rho if rho.size <= 100 else rho.shape}
+    if call.exc is not None:
+        if not first_sight(call.exc):
+            return mon.skip("exception already judged at an inner monitored call")
+        if np.all(dom):
+            mon.fail(exc_key("fs_ctr_to_aff_ctr", call.exc),
+                     "raised %s: %s" % (type(call.exc).__name__, str(call.exc)[:160]), case, tb=_tb(call.exc))
+        return
+    res = _cnum(call.result)
+    if res is None or res.shape != w0.shape:
+        return mon.fail("fs_ctr_to_aff_ctr/shape", "result of shape %r for input of shape %r"
+                        % (getattr(res, "shape", None), w0.shape), case)
+    res = res.astype(complex)
+    inf_side = (np.arctan(np.abs(w0)) + rho) > np.pi / 2
+    at0 = w0 == 0
+    for cls, sel in (("bounded", dom & ~inf_side & ~at0), ("contains-infinity", dom & inf_side),
+                     ("origin-centre", dom & at0)):
+        if not np.any(sel):
+            continue
+        # |centre| ~ 1 / margin near the pole of tan, derivative ~ 1 / margin^2
+        err = np.abs(res[sel] - want[sel]) / np.maximum(np.abs(want[sel]), 1e-300) * mg[sel]
+        err = np.where(np.abs(want[sel]) == 0, np.abs(res[sel]), err)
+        k = int(np.argmax(np.where(np.isfinite(err), err, np.inf)))
+        mon.judge(float(err[k]) if np.isfinite(err[k]) else float("nan"), 1e-10,
+                  "fs_ctr_to_aff_ctr/not-the-circle-centre/%s" % cls,
+                  "the returned centre is not the affine centre of the circle bounding the "
+                  "Fubini-Study ball, w0 / (1 - sin(rho)^2 (1 + |w0|^2))",
+                  dict(case, w0=w0[sel][k], rho=float(rho[sel][k]), result=res[sel][k], expected=want[sel][k]))
+
+
+def hook_aff_ctr_to_fs_ctr(call):
+    run = _state["run"]
+    mon = run.monitor("aff_ctr_to_fs_ctr")
+    got = _helper_args(call, ("aff_center", "aff_radius"))
+    if got is None:
+        return mon.skip("centre / radius not numeric or not broadcastable")
+    c, r = got
+    if not (np.all(np.isfinite(c)) and np.all(np.isfinite(r)) and np.all(r > 0)):
+        return mon.skip("non-finite input / non-positive radius")
+    case = {"function": "utils.cp1.aff_ctr_to_fs_ctr", "aff_center": c if c.size <= 100 else c.shape,
+            "aff_radius": r if r.size <= 100 else r.shape}
+    if call.exc is not None:
+        if not first_sight(call.exc):
+            return mon.skip("exception already judged at an inner monitored call")
+        return mon.fail(exc_key("aff_ctr_to_fs_ctr", call.exc),
+                        "raised %s: %s" % (type(call.exc).__name__, str(call.exc)[:160]), case, tb=_tb(call.exc))
+    res = _cnum(call.result)
+    if res is None or res.shape != c.shape:
+        return mon.fail("aff_ctr_to_fs_ctr/shape", "result of shape %r for input of shape %r"
+                        % (getattr(res, "shape", None), c.shape), case)
+    # judged as an angle (Fubini-Study distance of the centre from 0): the
+    # modulus itself is ill-conditioned for centres near infinity
+    want = cp1.affine_disk_fs_centre_angle(c, r)
+    err = np.abs(np.arctan(np.abs(res)) - want)
+    k = int(np.argmax(np.where(np.isfinite(err), err, np.inf))) if err.size else 0
+    e = float(np.ravel(err)[k]) if err.size else 0.0
+    mon.judge(e if np.isfinite(e) else float("nan"), 1e-10, "aff_ctr_to_fs_ctr/not-the-fs-centre",
+              "the returned value is not the modulus of the Fubini-Study centre of the disk |w - c| < r",
+              dict(case, c=np.ravel(c)[k] if c.size else None, r=float(np.ravel(r)[k]) if r.size else None,
+                   result=np.ravel(res)[k] if res.size else None, expected_angle=float(np.ravel(want)[k]) if want.size else None))
+
+
 def setup(run):
     from geometry_tools import complex_projective as cpm, projective
     _state["run"] = run
@@ -873,7 +999,8 @@ def setup(run):
             "circle_parameters": 200, "center_inside": 200, "fs_diameter": 100, "fs_center": 100,
             "complement": 100, "inversion": 100, "contains": 200, "intersects": 200,
             "mobius-image": 200, "point-roundtrip": 100, "disk-roundtrip": 100,
-            "scale-invariance": 100}
+            "scale-invariance": 100, "large-collections": 40, "fs_ctr_to_aff_ctr": 20,
+            "aff_ctr_to_fs_ctr": 20, "fs-affine-helpers": 40}
     for k, v in mins.items():
         run.monitor(k, min_events=v)
     attach.wrap_everywhere(run, cpm.projective_to_spherical, hook_projective_to_spherical)
@@ -889,6 +1016,9 @@ def setup(run):
     attach.wrap_attr(run, D, "contains", _relation_hook("contains", cp1.contains_truth))
     attach.wrap_attr(run, D, "intersects", _relation_hook("intersects", cp1.intersects_truth))
     attach.wrap_attr(run, projective.Transformation, "apply", hook_apply)
+    from geometry_tools.utils import cp1 as lib_cp1
+    attach.wrap_everywhere(run, lib_cp1.fs_ctr_to_aff_ctr, hook_fs_ctr_to_aff_ctr)
+    attach.wrap_everywhere(run, lib_cp1.aff_ctr_to_fs_ctr, hook_aff_ctr_to_fs_ctr)
 
 
 # ---------------------------------------------------------------------------
@@ -1689,6 +1819,207 @@ def wl_scales(run, rng, idx):
         run.sample(case)
 
 
+# ---------------------------------------------------------------------------
+# large collections (seeded change C20-r6-3)
+
+# sizes just below / at / above 256, 512, 1024, 2048 (where blocked or chunked
+# code paths switch), on the self side, on the other side, on both
+LARGE_SIZES = [(257, 3), (300, 7), (513, 2), (1000, 5), (4, 300), (6, 513), (300, 257), (1025, 1),
+               (256, 4), (512, 3), (255, 6), (2049, 2)]
+
+
+def wl_large(run, rng, idx):
+    """contains / intersects on LARGE collections.  Every other workload uses
+    at most 6 disks per operand and the ambient postcondition samples 192
+    pairs; a code path that only exists for big arrays (C20-r6-3: the pairwise
+    distance matrix filled in blocks of 256 rows, the last N % 256 rows left
+    at 0) is invisible there.  Here every entry of the N x M table is compared
+    with the set-theoretic answer from the generating (centre, radius, side),
+    computed on whole arrays (cp1.relation_tables)."""
+    from geometry_tools import complex_projective as cpm
+    mon = run.monitor("large-collections")
+    n, m = LARGE_SIZES[idx % 12]
+    if idx >= 12:
+        # thorough tier: wander around the thresholds
+        if n >= m:
+            n = max(1, n + int(rng.integers(-3, 130)))
+        else:
+            m = max(1, m + int(rng.integers(-3, 130)))
+    shape_a = (n,) if idx % 4 != 1 else (3, n // 3 + 1)
+    shape_b = (m,) if idx % 4 != 2 else (2, m // 2 + 1)
+    mixed = bool(idx % 2)
+
+    def params(shape):
+        c = rand_complex(rng, shape, -1.0, 0.5)
+        r = 10 ** rng.uniform(-1.3, 0.5, size=shape)
+        b = rng.random(size=shape) < 0.65 if mixed else np.full(shape, bool((idx // 2) % 3))
+        return c, r, b
+
+    def build(c, r, b):
+        data = np.where(b[..., None, None], data_disk(rng, c, r, True), data_disk(rng, c, r, False))
+        return guard(lambda: cpm.CP1Disk(data))
+    pa, pb = params(shape_a), params(shape_b)
+    # a second collection of A's shape for the elementwise mode: A's disks
+    # moved by 0.03 .. 5 radii and resized
+    ca, ra, ba = pa
+    pa2 = (ca + ra * 10 ** rng.uniform(-1.5, 0.7, size=shape_a) * np.exp(1j * rng.uniform(0, 2 * np.pi, size=shape_a)),
+           ra * 10 ** rng.uniform(-0.7, 0.7, size=shape_a),
+           rng.random(size=shape_a) < 0.65 if mixed else ba)
+    A, B, A2 = build(*pa), build(*pb), build(*pa2)
+    case = {"workload": "large", "shape_self": list(shape_a), "shape_other": list(shape_b), "mixed": mixed}
+    run.note_class("large", shape_a, shape_b, mixed)
+
+    def judge(rel, mode, X, Y, pX, pY, tag):
+        if X is None or Y is None:
+            return
+        run.current_case = dict(case, relation=rel, broadcast=mode, operands=tag)
+        got = guard(lambda: getattr(X, rel)(Y, broadcast=mode))
+        if got is None:
+            return
+        got = np.asarray(got)
+        cont, inter, ok = cp1.relation_tables(pX[0], pX[1], pX[2], pY[0], pY[1], pY[2], mode == "pairwise")
+        want = cont if rel == "contains" else inter
+        key_cls = "%s/%s/%s" % (mode, tag, "mixed" if mixed else "homogeneous")
+        if got.shape != want.shape:
+            return mon.fail("large-collections/%s/shape/%s" % (rel, key_cls),
+                            "result shape %r, expected %r" % (got.shape, want.shape), run.current_case)
+        bad = ok & (got.astype(bool) != want)
+        if not bad.any():
+            return mon.ok()
+        first = tuple(int(x) for x in np.argwhere(bad)[0])
+        i1 = first[0] if mode == "pairwise" else first
+        i2 = first[1] if mode == "pairwise" else first
+        f = lambda P, i: {"centre": repr(complex(P[0].reshape(-1)[i] if mode == "pairwise" else P[0][i])),
+                          "radius": float(P[1].reshape(-1)[i] if mode == "pairwise" else P[1][i]),
+                          "bounded": bool(P[2].reshape(-1)[i] if mode == "pairwise" else P[2][i])}
+        mon.fail("large-collections/%s/wrong-answer/%s" % (rel, key_cls),
+                 "%s(): %d of %d entries in general position differ from the set-theoretic answer; "
+                 "first at %r (rows affected: %d .. %d): got %r, expected %r"
+                 % (rel, int(bad.sum()), int(ok.sum()), first, int(np.argwhere(bad)[:, 0].min()),
+                    int(np.argwhere(bad)[:, 0].max()), bool(got[first]), bool(want[first])),
+                 dict(run.current_case, first_bad=list(first), self_disk=f(pX, i1), other_disk=f(pY, i2),
+                      self_centres=pX[0], self_radii=pX[1], self_bounded=pX[2],
+                      other_centres=pY[0], other_radii=pY[1], other_bounded=pY[2]))
+    for rel in ("contains", "intersects"):
+        judge(rel, "pairwise", A, B, pa, pb, "N-vs-M")
+        judge(rel, "pairwise", B, A, pb, pa, "M-vs-N")
+        judge(rel, "elementwise", A, A2, pa, pa2, "N-vs-N")
+    if idx % 6 == 0 and int(np.prod(shape_a)) * int(np.prod(shape_a)) <= 120000:
+        judge("intersects", "pairwise", A, A2, pa, pa2, "N-vs-N")
+    if idx < 2:
+        run.sample(case)
+
+
+# ---------------------------------------------------------------------------
+# utils/cp1.py helpers (seeded change C20-r6-2)
+
+HELPER_CLASSES = ["generic", "contains-infinity", "bounded", "small-radius", "contains-origin"]
+
+
+def wl_helpers(run, rng, idx):
+    """utils.cp1.fs_ctr_to_aff_ctr / aff_ctr_to_fs_ctr: public helpers of an
+    anchored file that state the conversion the property is about ("a disk
+    built from a spherical centre and Fubini-Study radius reports that centre
+    and radius": here, which affine circle that disk is).  The library never
+    calls them, so only direct calls see them (C20-r6-2).  Their
+    postconditions judge the closed forms; here they are also compared with
+    CP1Disk(w0, rho, radius_metric='fs') and with each other."""
+    from geometry_tools import complex_projective as cpm
+    from geometry_tools.utils import cp1 as lib
+    mon = run.monitor("fs-affine-helpers")
+    shape = [(), (5,), (2, 3), (1,)][idx % 4]
+    hcls = HELPER_CLASSES[(idx // 4) % 5]
+    w0 = rand_complex(rng, shape, -2, 2)
+    if idx % 7 == 3:
+        w0 = (np.abs(w0) * rng.choice([-1.0, 1.0], size=shape)).astype(complex)     # real centres
+    if HELPERS_DRIVE_ORIGIN and idx % 5 == 4 and shape:
+        w0[(0,) * len(shape)] = 0.0
+    th0 = np.arctan(np.abs(w0))
+    room = np.pi / 2 - th0                        # Fubini-Study distance of w0 from infinity
+    if hcls == "contains-infinity":
+        rho = room + (np.pi / 2 - room) * rng.uniform(0.05, 0.95, size=shape)
+    elif hcls == "bounded":
+        rho = room * rng.uniform(0.05, 0.95, size=shape)
+    elif hcls == "small-radius":
+        rho = 10 ** rng.uniform(-4, -1.5, size=shape)
+    elif hcls == "contains-origin":
+        rho = th0 + (np.pi / 2 - th0) * rng.uniform(0.05, 0.9, size=shape)
+    else:
+        rho = rng.uniform(0.01, 1.55, size=shape)
+    rho = np.clip(rho, 1e-6, np.pi / 2 - 1e-6)
+    mg = np.abs(th0 + rho - np.pi / 2)
+    case = {"workload": "helpers", "class": hcls, "shape": list(shape), "fs_center": w0, "fs_radius": rho}
+    run.current_case = case
+    run.note_class("helpers", hcls, shape)
+    scalar = not shape
+    arg_c = complex(w0) if scalar and idx % 8 < 4 else w0.copy()
+    arg_r = float(rho) if scalar and idx % 8 < 4 else rho.copy()
+    got = guard(lambda: lib.fs_ctr_to_aff_ctr(arg_c, arg_r))
+    D = guard(lambda: cpm.CP1Disk(w0.copy(), rho.copy(), radius_metric="fs"))
+    cp_ = guard(D.circle_parameters) if D is not None else None
+    if got is not None and cp_ is not None:
+        got = np.asarray(got, dtype=complex)
+        C_, R_ = np.asarray(cp_[0]), np.asarray(cp_[1])
+        if got.shape == shape and C_.shape == shape + (2,):
+            dom = mg >= HELPER_MARGIN
+            if np.any(dom):
+                cd = C_[..., 0] + 1j * C_[..., 1]
+                err = np.abs(got - cd) / (np.abs(cd) + R_) * mg
+                inf_side = (th0 + rho) > np.pi / 2
+                at0 = w0 == 0
+                for cls, sel in (("bounded", dom & ~inf_side & ~at0), ("contains-infinity", dom & inf_side),
+                                 ("origin-centre", dom & at0)):
+                    if np.any(sel):
+                        e = err[sel]
+                        mon.judge(float(np.max(e)) if np.all(np.isfinite(e)) else float("nan"), 1e-9,
+                                  "fs-affine-helpers/fs_ctr_to_aff_ctr-vs-CP1Disk/%s" % cls,
+                                  "fs_ctr_to_aff_ctr(w0, rho) is not the centre reported by "
+                                  "CP1Disk(w0, rho, radius_metric='fs').circle_parameters()",
+                                  dict(case, helper=got, disk_centre=cd, disk_radius=R_))
+            else:
+                mon.skip("boundary circle through infinity")
+        else:
+            mon.fail("fs-affine-helpers/shape", "helper result shape %r, disk centres %r, input %r"
+                     % (got.shape, C_.shape, shape), case)
+    # the other direction on bounded affine disks, against the disk class and
+    # as the inverse of the first helper
+    c, r = rand_disk_params(rng, shape, DISK_CLASSES[idx % 5])
+    if not HELPERS_DRIVE_ORIGIN:
+        c = np.where(c == 0, 0.5 * r, c)          # see HELPERS_DRIVE_ORIGIN
+    case2 = {"workload": "helpers", "shape": list(shape), "aff_center": c, "aff_radius": r}
+    run.current_case = case2
+    run.note_class("helpers-affine", DISK_CLASSES[idx % 5], shape)
+    s_ = guard(lambda: lib.aff_ctr_to_fs_ctr(complex(c) if scalar else c.copy(), float(r) if scalar else r.copy()))
+    Da = guard(lambda: cpm.CP1Disk(c.copy(), r.copy()))
+    fc = guard(Da.fs_center) if Da is not None else None
+    if s_ is not None and fc is not None:
+        s_ = np.asarray(s_)
+        pd = np.asarray(fc.proj_data)
+        if s_.shape == shape and pd.shape == shape + (2,):
+            with np.errstate(divide="ignore", invalid="ignore"):
+                ang_disk = np.arctan2(np.abs(pd[..., 1]), np.abs(pd[..., 0]))
+            mon.judge(float(np.max(np.abs(np.arctan(np.abs(s_)) - ang_disk))) if s_.size else 0.0, 1e-8,
+                      "fs-affine-helpers/aff_ctr_to_fs_ctr-vs-CP1Disk",
+                      "aff_ctr_to_fs_ctr(c, r) is not the modulus of CP1Disk(c, r).fs_center()",
+                      dict(case2, helper=s_, fs_center=pd))
+            # round trip: the Fubini-Study ball about that centre with the disk's
+            # Fubini-Study radius has affine centre c again
+            t = np.abs(c)
+            rho2 = 0.5 * (np.arctan(t + r) - np.arctan(t - r))
+            direction = c / np.where(t == 0, 1.0, t)
+            ok = (np.abs(s_) > 0) & (rho2 > 1e-6)
+            if np.any(ok):
+                back = guard(lambda: lib.fs_ctr_to_aff_ctr(np.abs(s_) * direction, rho2))
+                if back is not None and np.shape(back) == shape:
+                    e = np.abs(np.asarray(back) - c) / (t + r)
+                    mon.judge(float(np.max(e[ok])) if np.all(np.isfinite(e[ok])) else float("nan"), 1e-9,
+                              "fs-affine-helpers/round-trip",
+                              "fs_ctr_to_aff_ctr(aff_ctr_to_fs_ctr(c, r) c/|c|, rho(c, r)) != c",
+                              dict(case2, fs_centre_modulus=s_, fs_radius=rho2, back=back))
+    if idx < 2:
+        run.sample(case)
+
+
 WORKLOADS = [
     Workload("points", wl_points, quick=96, thorough=1920),
     Workload("disks", wl_disks, quick=80, thorough=1600),
@@ -1696,4 +2027,6 @@ WORKLOADS = [
     Workload("relations", wl_relations, quick=80, thorough=1600),
     Workload("small-far", wl_small_far, quick=40, thorough=960),
     Workload("scales", wl_scales, quick=42, thorough=1008),
+    Workload("large", wl_large, quick=12, thorough=96),
+    Workload("helpers", wl_helpers, quick=40, thorough=800),
 ]
